@@ -147,13 +147,17 @@ func (st *State) loadKey(kind PtrKind, key string, base, idx *Term, t types.Type
 	case *types.Slice:
 		sv := &SliceV{st.readLeaf(kind, key+"#arr", base, idx, IntSort), st.readLeaf(kind, key+"#off", base, idx, IntSort),
 			st.readLeaf(kind, key+"#len", base, idx, IntSort), st.readLeaf(kind, key+"#cap", base, idx, IntSort)}
-		for _, f := range sliceFacts(sv) {
-			st.vc.assume(st, f)
+		if len(freeBound(sv.Arr)) == 0 {
+			for _, f := range sliceFacts(sv) {
+				st.vc.assume(st, f)
+			}
 		}
 		return sv
 	case *types.Interface:
 		iv := &IfaceV{st.readLeaf(kind, key+"#tag", base, idx, IntSort), st.readLeaf(kind, key+"#data", base, idx, IntSort)}
-		st.vc.assume(st, Ge(iv.Tag, IntC(0)))
+		if len(freeBound(iv.Tag)) == 0 {
+			st.vc.assume(st, Ge(iv.Tag, IntC(0)))
+		}
 		return iv
 	case *types.Struct:
 		sv := &StructV{T: u}
